@@ -59,6 +59,10 @@ Definition only_filtered_remain (lx : clexer) : res bool :=
   do r <- c_next lx;
   Ok (match fst r with None => c_at_end (snd r) | Some _ => false end).
 
+(** [lexer.peek_token_span().unwrap_or_else(|| lexer.token_span())]: span of a looked-at token *)
+Definition peeked_span (lx : clexer) : span :=
+  match c_peek_token_span lx with Some sp => sp | None => c_token_span lx end.
+
 Definition lt_opt (n : nat) (hi : option nat) : bool :=   (* hi.map_or(true, |h| n < h) *)
   match hi with None => true | Some h => n <? h end.
 Definition ge_opt (n : nat) (hi : option nat) : bool :=   (* hi.map_or(false, |h| n >= h) *)
@@ -81,9 +85,9 @@ Inductive bmatch :=
 
 Definition pts (lx : clexer) : option span := c_peek_token_span lx.
 
-(** [stack] is [opened], top first; [ol] is [open_lexer] *)
+(** [stack] is [opened], top first; [ol] is [open_lexer]; [sps] is [open_spans], top first *)
 Fixpoint bracket_loop (fuel : nat) (os cs ab : list kind) (start : span)
-         (lx : clexer) (ol : option clexer) (stack : list (nat * nat)) : bmatch :=
+         (lx : clexer) (ol : option clexer) (stack : list (nat * nat)) (sps : list span) : bmatch :=
   match fuel with
   | 0 => BFuel
   | S f =>
@@ -98,9 +102,9 @@ Fixpoint bracket_loop (fuel : nat) (os cs ab : list kind) (start : span)
                   end
       end
     | Ok (Some tk, lx1) =>
-      let continue ol' stack' :=
+      let continue ol' stack' sps' :=
         match c_next lx1 with
-        | Ok (_, lx2) => bracket_loop f os cs ab start lx2 ol' stack'
+        | Ok (_, lx2) => bracket_loop f os cs ab start lx2 ol' stack' sps'
         | Panic => BPanic | Fuel => BFuel
         end in
       match position (fun k => tok_eqb (tk0 k) tk) cs with
@@ -109,40 +113,41 @@ Fixpoint bracket_loop (fuel : nat) (os cs ab : list kind) (start : span)
         | [] => match pts lx1 with Some sp => BErr (EBracket BUnopened sp None) | None => BPanic end
         | (t, n) :: rest =>
           if negb (t =? idx) then
-            match ol with
-            | Some o => match pts o, pts lx1 with
-                        | Some s1, Some s2 => BErr (EBracket BMismatch s1 (Some s2))
-                        | _, _ => BPanic
-                        end
-            | None => BPanic
+            match sps, pts lx1 with
+            | s1 :: _, Some s2 => BErr (EBracket BMismatch s1 (Some s2))
+            | _, _ => BPanic
             end
-          else if 1 <? n then continue ol ((t, n - 1) :: rest)
+          else if 1 <? n then continue ol ((t, n - 1) :: rest) (tl sps)
           else match rest with
                | [] => match ol with Some o => BM o lx1 idx | None => BPanic end
-               | _ => continue ol rest                    (* an inner pair of another kind closed *)
+               | _ => continue ol rest (tl sps)           (* an inner pair of another kind closed *)
                end
         end
       | None =>
         match position (fun k => tok_eqb (tk0 k) tk) os with
         | Some idx =>
           let ol' := match ol with None => Some lx1 | Some _ => ol end in
-          match stack with
-          | [] => continue ol' [(idx, 1)]
-          | (t, n) :: rest =>
-            if negb (t =? idx) then continue ol' ((idx, 1) :: (t, n) :: rest)
-            else continue ol' ((t, n + 1) :: rest)
+          match pts lx1 with
+          | None => BPanic                                (* peek_token_span().unwrap() *)
+          | Some osp =>
+            match stack with
+            | [] => continue ol' [(idx, 1)] (osp :: sps)
+            | (t, n) :: rest =>
+              if negb (t =? idx) then continue ol' ((idx, 1) :: (t, n) :: rest) (osp :: sps)
+              else continue ol' ((t, n + 1) :: rest) (osp :: sps)
+            end
           end
         | None =>
           if in_kinds ab tk && (match ol with None => true | Some _ => false end) then
             match pts lx1 with Some sp => BErr (EBracket BNone sp None) | None => BPanic end
-          else continue ol stack
+          else continue ol stack sps
         end
       end
     end
   end.
 
 Definition match_nested_brackets (lx : clexer) (os cs ab : list kind) : bmatch :=
-  bracket_loop (fuel_of lx) os cs ab (span_at (c_cursor_pos lx)) lx None [].
+  bracket_loop (fuel_of lx) os cs ab (span_at (c_cursor_pos lx)) lx None [] [].
 
 Section WithRun.
   (** the interpreter at the next lower fuel *)
@@ -419,7 +424,7 @@ Fixpoint run (fuel : nat) (g : G) (lx : clexer) (c : ctx) (st : store) {struct f
         | Some t =>
           match position (fun k => tok_eqb t (tk0 k)) ks with
           | Some i => lift (c_next lx') st (fun '(_, lx'') => (ROk (VTok (tk0 (nth i ks KA))) lx'', st))
-          | None => (RErr (EUnexpected es (c_token_span lx') (ExAny (map tk0 ks)) (Some t)), st)
+          | None => (RErr (EUnexpected es (peeked_span lx') (ExAny (map tk0 ks)) (Some t)), st)
           end
         | None => (RErr (EUnexpected es (c_token_span lx') (ExAny (map tk0 ks)) None), st)
         end)
@@ -434,7 +439,7 @@ Fixpoint run (fuel : nat) (g : G) (lx : clexer) (c : ctx) (st : store) {struct f
         | Some t =>
           match position (fun k => tok_eqb t (tk0 k)) ks with
           | Some i => lift (c_next lx') st (fun '(_, lx'') => (ROk (VNat i) lx'', st))
-          | None => (RErr (EUnexpected es (c_token_span lx') (ExAny (map tk0 ks)) (Some t)), st)
+          | None => (RErr (EUnexpected es (peeked_span lx') (ExAny (map tk0 ks)) (Some t)), st)
           end
         | None => (RErr (EUnexpected es (c_token_span lx') (ExAny (map tk0 ks)) None), st)
         end)
@@ -485,7 +490,7 @@ Fixpoint run (fuel : nat) (g : G) (lx : clexer) (c : ctx) (st : store) {struct f
       else
         lift (c_peek lx) st (fun '(o, lx') =>
         match o with
-        | Some t => (RErr (EUnexpected es (c_token_span lx') ExEot (Some t)), st)
+        | Some t => (RErr (EUnexpected es (peeked_span lx') ExEot (Some t)), st)
         | None => (RErr (EUnrecognized es), st)
         end))
     (* join.rs *)
@@ -510,6 +515,7 @@ Fixpoint run (fuel : nat) (g : G) (lx : clexer) (c : ctx) (st : store) {struct f
                    end in
       on_ok (rec a lx1 c st) (fun _ lx' st' =>
         let e := byte (send (c_parse_span lx')) in
+        let start := Nat.min start e in
         if (start <=? e) && (e <=? blen (c_text lx')) then (ROk (VText start e) lx', st')
         else (RPanic, st')))                             (* &text[start..end] *)
     | GSpanned a =>
@@ -519,7 +525,9 @@ Fixpoint run (fuel : nat) (g : G) (lx : clexer) (c : ctx) (st : store) {struct f
                    | None => send (c_token_span lx1)
                    end in
       on_ok (rec a lx1 c st) (fun v lx' st' =>
-        (ROk (VSpanned (enclosing start (send (c_parse_span lx'))) v) lx', st')))
+        let e := send (c_parse_span lx') in
+        let start := if byte e <? byte start then e else start in
+        (ROk (VSpanned (enclosing start e) v) lx', st')))
     | GSub a => lift (c_start_sublex lx) st (fun lx' => rec a lx' c st)
     (* alt.rs *)
     | GEither a b =>
